@@ -125,7 +125,7 @@ def dec(line):
 
 STR_ALPHA = ["'", '"', '\\', '$', 'a', '\n', '\x85', '‮', 'é', ' ', '\t', '\x01', '(', 'r']
 ID_ALPHA = ['a', 'A', '0', '_', '`', '$', '@', ':', ' ', 'é', '²', 'K', '٣', '\n']
-PGID_ALPHA = ['a', 'A', '0', '_', '"', '$', ' ', 'é', '²', 'İ', '.', "'", 'ǅ', '٣']
+PGID_ALPHA = ['a', 'A', '0', '_', '"', '$', ' ', 'é', '²', 'İ', '.', "'", 'ǅ', '٣', '\n', '\t']
 BYTE_ALPHA = [0x5c, 0x27, 0x22, 0x0a, 0x09, 0x00, 0x7e, 0x7f, 0x80, 0xff, 0x61, 0x78, 0x30, 0x20]
 K_QUOTED = ['', ' ', ';', '$', "'", '"', 'a', '$$', ' by', '`', '\\', "''", '$a$', 'a$']
 K_PGLIT = ['', ' ', ';', '$', '"', 'a', '::text', ')']
@@ -305,7 +305,8 @@ def gen_cases(tier):
                 cases.append(('i', v, rnd.choice(K_PGID), fl))
     # ---- every code point once (thorough) / a spread (quick) through the string and name forms
     step = 1 if thorough else 37
-    for c in range(1, 0x110000, step):
+    # all of Latin-1 always (whitespace / control characters in names: seed C18/5), then the spread
+    for c in itertools.chain(range(1, 0x100), range(0x100, 0x110000, step)):
         if 0xD800 <= c < 0xE000:
             continue
         ch = chr(c)
@@ -317,6 +318,14 @@ def gen_cases(tier):
             cases.append(('P', 'x' + ch, ' ', 0))
             cases.append(('i', 'x' + ch, ' ', 0))
             cases.append(('C', "\x01'" + ch, '', 0))
+    # ---- strings that look like the escapes Python's repr() writes (added after seed C18/4: the
+    # printer post-processes repr() output, so literal backslash sequences in the VALUE must not be
+    # mistaken for repr's own escapes): token soup of backslashes, x/u escapes bodies, controls
+    REPR_TOK = ['\\', '\\x', '\\u', '\\n', 'x', '8a', 'ff', '9', 'e', '0', 'u00', '85', 'n', "'", '"',
+                '\n', '\x85', '\x01', '\x7f', '\u202e', 'a', '\\\\', '\\\'']
+    for _ in range(40000 if thorough else 4000):
+        s = ''.join(rnd.choice(REPR_TOK) for _ in range(rnd.randint(2, 7)))
+        cases.append(('C', s, rnd.choice(K_QUOTED), 0))
     # ---- random long strings by category buckets
     nr = 120000 if thorough else 6000
     for _ in range(nr):
